@@ -258,6 +258,8 @@ struct Edit {
 
 struct Ctx<'p> {
     src: &'p str,
+    /// R28: line of the original file for every line of `src` (empty: `src` is the file as it is)
+    line_map: Vec<usize>,
     plan: &'p Plan,
     edits: Vec<Edit>,
     out: Output,
@@ -356,7 +358,8 @@ fn squash(s: &str) -> String {
 
 impl<'p> Ctx<'p> {
     fn line_of(&self, off: usize) -> usize {
-        self.src[..off].bytes().filter(|b| *b == b'\n').count() + 1
+        let l = self.src[..off].bytes().filter(|b| *b == b'\n').count() + 1;
+        if self.line_map.is_empty() { l } else { self.line_map[(l - 1).min(self.line_map.len() - 1)] }
     }
     fn text(&self, s: usize, e: usize) -> &'p str {
         &self.src[s..e]
@@ -1875,6 +1878,171 @@ fn format_to_cat(mac: &syn::Macro) -> Option<String> {
     Some(acc)
 }
 
+/// R28: a `macro_rules!` with ONE rule whose matcher is a comma-separated list of identifiers (`$($v:ident),+` or `,*`) is expanded
+/// textually at each of its invocations `name!(A, B, ..)`: the rule body is copied from the source, every `$( .. )*` / `$( .. )+`
+/// repetition is written once per argument with `$v` replaced by it. The definition itself is blanked (line count kept). The expanded
+/// text is ordinary Rust, so every other rule applies to it as to hand-written code. Returns (text, original line of each line, log).
+/// Anything that does not have exactly this shape is left alone.
+fn expand_list_macros(src: String, file: &str) -> (String, Vec<usize>, Vec<String>) {
+    use proc_macro2::{Delimiter, TokenTree as TT};
+    let Ok(parsed) = syn::parse_file(&src) else { return (src, Vec::new(), Vec::new()) };
+    struct Def { name: String, var: String, body: (usize, usize), reps: Vec<(usize, usize, usize, usize, Vec<(usize, usize)>)>, outer_vars: usize, span: (usize, usize) }
+    let mut defs: Vec<Def> = Vec::new();
+    for it in &parsed.items {
+        let syn::Item::Macro(m) = it else { continue };
+        if !m.mac.path.is_ident("macro_rules") { continue }
+        let Some(name) = &m.ident else { continue };
+        let toks: Vec<TT> = m.mac.tokens.clone().into_iter().collect();
+        // ( matcher ) => { body } [;]
+        if !(toks.len() == 4 || toks.len() == 5) { continue }
+        let (TT::Group(mg), TT::Punct(p1), TT::Punct(p2), TT::Group(bg)) = (&toks[0], &toks[1], &toks[2], &toks[3]) else { continue };
+        if p1.as_char() != '=' || p2.as_char() != '>' || bg.delimiter() != Delimiter::Brace { continue }
+        if toks.len() == 5 { if let TT::Punct(p) = &toks[4] { if p.as_char() != ';' { continue } } else { continue } }
+        let mt: Vec<TT> = mg.stream().into_iter().collect();
+        // $ ( $ v : ident ) , +|*
+        if mt.len() != 4 { continue }
+        let (TT::Punct(d), TT::Group(ig), TT::Punct(sep), TT::Punct(rep)) = (&mt[0], &mt[1], &mt[2], &mt[3]) else { continue };
+        if d.as_char() != '$' || sep.as_char() != ',' || !(rep.as_char() == '+' || rep.as_char() == '*') || ig.delimiter() != Delimiter::Parenthesis { continue }
+        let it_: Vec<TT> = ig.stream().into_iter().collect();
+        if it_.len() != 4 { continue }
+        let (TT::Punct(d2), TT::Ident(v), TT::Punct(c), TT::Ident(k)) = (&it_[0], &it_[1], &it_[2], &it_[3]) else { continue };
+        if d2.as_char() != '$' || c.as_char() != ':' || k != "ident" { continue }
+        let var = v.to_string();
+        // body: top-level repetitions `$( .. ) [sep] *|+`, uses of `$v` inside them; nested repetitions or `$v` outside one: not this shape
+        let body = (br(bg.span_open()).1, br(bg.span_close()).0);
+        let mut reps = Vec::new();
+        let mut ok = true;
+        let mut outer_vars = 0usize;
+        fn scan(ts: proc_macro2::TokenStream, var: &str, top: bool, reps: &mut Vec<(usize, usize, usize, usize, Vec<(usize, usize)>)>, ok: &mut bool, outer_vars: &mut usize, inside: &mut Option<Vec<(usize, usize)>>) {
+            let v: Vec<TT> = ts.into_iter().collect();
+            let mut i = 0;
+            while i < v.len() {
+                match &v[i] {
+                    TT::Punct(p) if p.as_char() == '$' => {
+                        match v.get(i + 1) {
+                            Some(TT::Group(g)) if g.delimiter() == Delimiter::Parenthesis => {
+                                if inside.is_some() { *ok = false; return }
+                                // optional separator, then * or +
+                                let mut j = i + 2;
+                                let mut endp = None;
+                                if let Some(TT::Punct(q)) = v.get(j) {
+                                    if q.as_char() == '*' || q.as_char() == '+' { endp = Some(br(q.span()).1) }
+                                    else if let Some(TT::Punct(q2)) = v.get(j + 1) { if q2.as_char() == '*' || q2.as_char() == '+' { *ok = false; return } let _ = q2; }
+                                }
+                                let Some(endp) = endp else { *ok = false; return };
+                                j += 1;
+                                let mut uses = Some(Vec::new());
+                                scan(g.stream(), var, false, reps, ok, outer_vars, &mut uses);
+                                if !*ok { return }
+                                reps.push((br(p.span()).0, endp, br(g.span_open()).1, br(g.span_close()).0, uses.unwrap()));
+                                i = j;
+                                continue;
+                            }
+                            Some(TT::Ident(id)) => {
+                                if id == var {
+                                    match inside { Some(u) => u.push((br(p.span()).0, br(id.span()).1)), None => { *outer_vars += 1; } }
+                                } else { *ok = false; return }
+                                i += 2;
+                                continue;
+                            }
+                            _ => { *ok = false; return }
+                        }
+                    }
+                    TT::Group(g) => { scan(g.stream(), var, top, reps, ok, outer_vars, inside); if !*ok { return } }
+                    _ => {}
+                }
+                i += 1;
+            }
+        }
+        let mut none = None;
+        scan(bg.stream(), &var, true, &mut reps, &mut ok, &mut outer_vars, &mut none);
+        if !ok || outer_vars > 0 { continue }
+        reps.sort();
+        defs.push(Def { name: name.to_string(), var, body, reps, outer_vars, span: br(it.span()) });
+    }
+    if defs.is_empty() { return (src, Vec::new(), Vec::new()) }
+    // invocations: `name!(A, B, ..)` as an item or as an impl item
+    let mut calls: Vec<(usize, usize, usize, Vec<String>)> = Vec::new(); // (start, end, def index, args)
+    let mut consider = |mac: &syn::Macro, span: (usize, usize)| {
+        let Some(id) = mac.path.get_ident() else { return };
+        let Some(di) = defs.iter().position(|d| *id == d.name) else { return };
+        let mut args = Vec::new();
+        let mut expect_ident = true;
+        for t in mac.tokens.clone() {
+            match t {
+                TT::Ident(i) if expect_ident => { args.push(i.to_string()); expect_ident = false; }
+                TT::Punct(p) if !expect_ident && p.as_char() == ',' => expect_ident = true,
+                _ => return,
+            }
+        }
+        if !args.is_empty() { calls.push((span.0, span.1, di, args)); }
+    };
+    for it in &parsed.items {
+        match it {
+            syn::Item::Macro(m) if m.ident.is_none() => consider(&m.mac, br(it.span())),
+            syn::Item::Impl(im) => for ii in &im.items { if let syn::ImplItem::Macro(m) = ii { consider(&m.mac, br(ii.span())) } },
+            _ => {}
+        }
+    }
+    if calls.is_empty() { return (src, Vec::new(), Vec::new()) }
+    let orig_line = |off: usize| src[..off].bytes().filter(|b| *b == b'\n').count() + 1;
+    let mut out = String::new();
+    let mut map: Vec<usize> = vec![1];
+    fn push(out: &mut String, map: &mut Vec<usize>, text: &str, mut line: usize) {
+        for ch in text.chars() {
+            out.push(ch);
+            if ch == '\n' { line += 1; map.push(line); }
+        }
+    }
+    let mut log = Vec::new();
+    // edits in source order: blank the definitions that are invoked, expand the invocations
+    let mut edits: Vec<(usize, usize, Option<usize>)> = Vec::new();
+    for (k, d) in defs.iter().enumerate() { if calls.iter().any(|c| c.2 == k) { edits.push((d.span.0, d.span.1, None)); } }
+    for (k, c) in calls.iter().enumerate() { edits.push((c.0, c.1, Some(k))); }
+    edits.sort();
+    let mut pos = 0usize;
+    for (a, b, what) in edits {
+        if a < pos { continue }
+        push(&mut out, &mut map, &src[pos..a], orig_line(pos));
+        match what {
+            None => {
+                let nl = src[a..b].bytes().filter(|x| *x == b'\n').count();
+                push(&mut out, &mut map, &format!("// (macro_rules definition expanded at its invocations, rule R28){}", "\n".repeat(nl)), orig_line(a));
+            }
+            Some(k) => {
+                let (_, _, di, args) = &calls[k];
+                let d = &defs[*di];
+                push(&mut out, &mut map, &format!("// {}!({}) expanded from the macro_rules body (rule R28)", d.name, args.join(", ")), orig_line(a));
+                let mut p = d.body.0;
+                for (rs, re, is, ie, uses) in &d.reps {
+                    push(&mut out, &mut map, &src[p..*rs], orig_line(p));
+                    for arg in args {
+                        let mut q = *is;
+                        for (us, ue) in uses {
+                            push(&mut out, &mut map, &src[q..*us], orig_line(q));
+                            push(&mut out, &mut map, arg, orig_line(*us));
+                            q = *ue;
+                        }
+                        push(&mut out, &mut map, &src[q..*ie], orig_line(q));
+                    }
+                    p = *re;
+                }
+                push(&mut out, &mut map, &src[p..d.body.1], orig_line(p));
+                log.push(format!("{}:{} R28 {}!({}) expanded textually from its macro_rules definition at line {} ({} repetitions x {} arguments)",
+                    file, orig_line(a), d.name, args.join(", "), orig_line(d.span.0), d.reps.len(), args.len()));
+                let _ = (&d.var, d.outer_vars);
+            }
+        }
+        pos = b;
+    }
+    push(&mut out, &mut map, &src[pos..], orig_line(pos));
+    if syn::parse_file(&out).is_err() {
+        // the expansion is not Rust (a shape this rule does not understand): leave the file as it is
+        return (src, Vec::new(), Vec::new());
+    }
+    (out, map, log)
+}
+
 fn item_key(i: &syn::Item) -> Option<(String, Vec<syn::Attribute>)> {
     Some(match i {
         syn::Item::Struct(s) => (format!("struct {}", s.ident), s.attrs.clone()),
@@ -2000,6 +2168,7 @@ fn main() {
     }
     let plan: Plan = serde_json::from_str(&std::fs::read_to_string(&args[1]).expect("plan")).expect("plan json");
     let src = std::fs::read_to_string(&plan.file).expect("source file");
+    let (src, line_map, pre_log) = expand_list_macros(src, &short(&plan.file));
     let file = match syn::parse_file(&src) {
         Ok(f) => f,
         Err(e) => {
@@ -2011,6 +2180,7 @@ fn main() {
     };
     let mut cx = Ctx {
         src: &src,
+        line_map,
         plan: &plan,
         edits: Vec::new(),
         out: Output::default(),
@@ -2031,6 +2201,7 @@ fn main() {
         copy_names: Vec::new(),
         copy_assoc: HashMap::new(),
     };
+    cx.out.log.extend(pre_log);
     let mut rendered = String::new();
     for item in &file.items {
         let Some((key, attrs)) = item_key(item) else { continue };
